@@ -762,3 +762,23 @@ theorem late_add_new_view (a b : List When) (t : Tree) (e : Nat) (he : e < (a ++
 example : extsOf ([.before, .after] ++ [.before]) .before = [0, 2] := by decide
 
 end Visitor
+
+/-! ## the main visitor and the extensions enter the same nodes -/
+namespace Visitor
+
+/-- **main_enter_once**: with distinct nodes the main visitor enters no node twice either. -/
+theorem main_enter_once (exts : List When) (t : Tree) (hn : (ids t).Nodup) :
+    (((restrict .main (walkabout exts t).1).filter (fun x => x.1 = .visit)).map (·.2)).Nodup := by
+  rw [main_trace, visits_mainBrackets]
+  exact List.Sublist.nodup (pids_sublist t) hn
+
+/-- **same_nodes_entered**: every registered extension enters exactly the nodes the main visitor enters, in the
+same order — also the nodes whose departure or children the main visitor skips. -/
+theorem same_nodes_entered (exts : List When) (t : Tree) (e : Nat) (he : e < exts.length) :
+    ((restrict (.ext e) (walkabout exts t).1).filter (fun x => x.1 = .visit)).map (·.2)
+      = ((restrict .main (walkabout exts t).1).filter (fun x => x.1 = .visit)).map (·.2) := by
+  rw [nested exts t e he, main_trace, visits_brackets, visits_mainBrackets]
+
+example : ((restrict .main (walkabout [.inner] exTree).1).filter (fun x => x.1 = .visit)).map (·.2) = [0, 1, 2] := by decide
+
+end Visitor
